@@ -8,6 +8,7 @@ import random as _random_mod
 import re
 import re._constants as SC
 import re._parser as SP
+import threading
 from datetime import datetime as _real_datetime, timedelta
 
 from . import common
@@ -472,6 +473,7 @@ class MemBook:
         self.tag = tag
         self.decisions = 0                # filter calls judged so far
         self.first_block = {}             # content -> number of the decision that blocked it by a scan
+        self.block_note = {}              # content -> what else happened at that decision (a handler that raised)
 
     def exported(self):
         return list(self.learned.values())
@@ -508,7 +510,7 @@ class MemBook:
                 self.adaptive = bool(op[2])
             elif op[1] == "threshold":
                 self.apply(["thr", op[2]])
-            elif op[1] != "silent":
+            elif op[1] not in ("silent", "on_threat"):      # a handler decides nothing
                 raise ValueError(op[1])
 
     def judge(self, st):
@@ -538,7 +540,8 @@ class MemBook:
                                  f"{[(i, names[i]) for i in bad]} at/above threshold {self.thr} match")
             if replay:
                 return Violation("C10/replay-forgotten",
-                                 f"{t}{x!r} was blocked by a scan earlier (decision #{self.first_block[x]} of this membrane; "
+                                 f"{t}{x!r} was blocked by a scan earlier (decision #{self.first_block[x]} of this membrane"
+                                 f"{self.block_note.get(x, '')}; "
                                  f"{len(self.blocked_by_scan)} distinct inputs blocked by scans so far, {self.decisions} decisions) "
                                  f"and is allowed now")
             for b in self.blocked_now:
@@ -558,6 +561,9 @@ class MemBook:
             if not st["allowed"]:
                 self.blocked_by_scan[x] = self.epoch
                 self.first_block[x] = self.decisions
+                if st.get("handler_raised"):
+                    self.block_note[x] = (f", audited as allowed=False; the on_threat handler raised {st['handler_raised']} on it "
+                                          f"and the caller handled that")
                 self.blocked_now.append(x)
         if st["limited"] is not True:
             self.admitted.append((st["t"] / TPS, self.rate))      # passed the rate check, under the limit then in force
@@ -577,6 +583,41 @@ class MemBook:
                                  f"{r} when the last of them was admitted (rate_limit in force at each of these admissions: "
                                  f"{[q for _, q in inwin][:12]}{'...' if len(inwin) > 12 else ''})")
         return None
+
+
+class SinkDown(Exception):
+    """a user-defined Exception subclass (an alert sink that is unreachable)"""
+
+
+class Abort(BaseException):
+    """a user-defined BaseException subclass"""
+
+
+# what a user-supplied callback (on_threat, on_inflammation) may raise: Exception and BaseException subclasses
+HANDLER_EXC = {"ConnectionError": ConnectionError, "ValueError": ValueError, "RuntimeError": RuntimeError,
+               "KeyError": KeyError, "TimeoutError": TimeoutError, "StopIteration": StopIteration, "SinkDown": SinkDown,
+               "KeyboardInterrupt": KeyboardInterrupt, "SystemExit": SystemExit, "GeneratorExit": GeneratorExit,
+               "Abort": Abort}
+HANDLER_MODES = list(HANDLER_EXC)
+
+
+def fresh(x):
+    """A NEW str object equal to x, built at run time (as a text read from a socket or a file is): the gates are never
+    handed the case's own long-lived objects, and the harness drops the copy right after the call."""
+    return x.encode("utf-8", "surrogatepass").decode("utf-8", "surrogatepass")
+
+
+def pad_to(x, n, rng=None):
+    """x inside benign filler, exactly n code points (x itself when it is already that long or longer)"""
+    if len(x) >= n:
+        return x
+    fill = "the weather report for today is fine and calm , thanks . "
+    room = n - len(x)
+    left = (room // 2) if rng is None else rng.randint(0, room)
+    lt = (fill * (left // len(fill) + 1))[:max(0, left - 1)] + (" " if left else "")
+    right = room - len(lt)
+    rt = (" " if right else "") + (fill * (right // len(fill) + 1))[:max(0, right - 1)]
+    return lt + x + rt
 
 
 class VClock:
@@ -711,6 +752,25 @@ class C10(Check):
             "letter (e s k + acute), ligature fi / mathematical a / roman numeral / superscript / circled a, IDEOGRAPHIC SPACE for "
             "a blank; the same decorations in 12% of the random contents and 8% of the per-signature batch contents; the "
             "classification itself (\\w \\s \\d, fold) of every non-ASCII alphabet character is compared inside Coq. "
+            "CALLBACKS THAT RAISE (round 7): on_threat / on_inflammation handlers that RAISE when called - 7 Exception classes "
+            "(ConnectionError, ValueError, RuntimeError, KeyError, TimeoutError, StopIteration, a user-defined one) and 4 "
+            "BaseException classes (KeyboardInterrupt, SystemExit, GeneratorExit, a user-defined one) - given to the constructor, "
+            "assigned on the live object, or replacing a returning handler; the harness is the caller that handles the "
+            "exception and goes on: scripted family (block while the handler raises, other traffic, small campaigns of "
+            "raising blocks, the handler repaired / removed / failing differently, the rules relaxed through set_threshold / "
+            "forget_threat / both / import of a weaker antibody / threshold assignment, the byte-identical input again; innate: "
+            "inflaming checks, checks during and after the cool-down, patterns added meanwhile, the handler removed) on every "
+            "run (one member per exception class in quick, all class x door x relaxation combinations in thorough), random "
+            "members (2%), and raising handlers mixed into the free membrane / innate histories and given to 15% of the members "
+            "of random colonies (there the model is not told: the audited decision must be what it is without a handler); the decision of a call "
+            "whose handler raised is read from the audit trail. SHORT-LIVED INPUT OBJECTS (round 7): every gate call receives "
+            "a NEW str object built at run time (never the case's own long-lived object) that is dropped right after the "
+            "call; counted bursts keep none of their inputs alive; innate `stream` operation = texts of ONE length (16..200) "
+            "built, checked and dropped back to back with nothing but integers recorded in between - a benign text (checked "
+            "by this gate, by a sibling InnateImmunity, or by the sibling on a worker thread) then a signature-carrying text "
+            "(built-in / custom, substring / regex, case-flipped) of the same length, repeated, split by reset / tick / "
+            "check - systematic family (4 routes x 2 lengths quick, x 6 thorough), random members (2%), and 4 equal-length "
+            "texts appended to every per-signature batch of a shipped signature. "
             "non-trivial = at least one signature matched or a request was rate-limited/replay-blocked/"
             "rejected by a validator; distinct by case content")
     LEVEL_TEXT = ("Coq theorems, for all signature sets (substring, regex over an AST with literals, sets, categories, '.', sequence, "
@@ -743,7 +803,16 @@ class C10(Check):
                   "named) survive every live history; a history without assignments is an ordinary one. DECORATED OCCURRENCES: a "
                   "code point that is not \\w (for Python: every combining mark / format character of the alphabet) right after, "
                   "right before or on both sides of an occurrence leaves every signature matching and a scan-blocked input "
-                  "blocked (both sides: no condition on the pattern or the rest of the text). The shipped patterns are regenerated from the source through CPython's own regex parser on every "
+                  "blocked (both sides: no condition on the pattern or the rest of the text). CALLBACKS THAT RAISE (mfilter_h, "
+                  "hrun: every operation of a live history paired with the handler in force, a handler = any function saying "
+                  "whether on_threat(result) raises): a handler changes neither the state transition nor the decision; when its "
+                  "exception reaches the caller the decision was a scan block that is already the last audit entry, counted, and "
+                  "in the replay memory; a history with handlers is the live history of its operations; an input blocked by a "
+                  "scan - result returned or handler raised - is refused after every later history under every handler; a "
+                  "raising on_inflammation (icheck_h) leaves patterns and threshold alone and can only raise after the "
+                  "inflammation state took the new level. EARLIER INPUTS LEAVE NO TRACE: after any history of filters / ticks / "
+                  "threshold changes (innate: anything but add_pattern) a scan reports exactly the active signatures matching "
+                  "the input now submitted and refuses it when one is at / above the threshold. The shipped patterns are regenerated from the source through CPython's own regex parser on every "
                   "run (Gen_C10_ok), and model and code are compared on every generated history and per pattern.")
     LEVEL_NOTE = ("Trusts: Coq kernel+VM; translators/regex_to_coq.py and CPython's re._parser; the matching semantics of CPython's sre "
                   "engine for the supported opcodes (compared per pattern on every run, not proved); Unicode case folding and "
@@ -784,10 +853,16 @@ class C10(Check):
                "member) exceeds max_depth",
                "counted bursts: decimal numerals of at most 40 digits (Model.v dec); campaigns of 70000+ inputs are run on the "
                "implementation under the monitor only, the 10400 one also inside Coq",
-               "console output (silent=False), the on_threat / on_inflammation callbacks (supplied as benign recording callbacks that "
-               "return; raising callbacks are outside the property) and the read-only accessors are not part of the model: the harness "
+               "console output (silent=False), on_threat / on_inflammation callbacks that RETURN (benign recording callbacks) and the "
+               "read-only accessors are not part of the model: the harness "
                "exercises them in a share of the histories and strips them from the model's input, so any influence on a decision, "
-               "the audit trail or the statistics shows as a correspondence mismatch (and, where the property speaks, in the monitor)",
+               "the audit trail or the statistics shows as a correspondence mismatch (and, where the property speaks, in the monitor); "
+               "callbacks that RAISE are modelled (mfilter_h / icheck_h): the model is told only WHETHER the installed handler "
+               "raises, not which exception class (11 classes are exercised)",
+               "object identity of inputs: the model's contents are values (lists of code points); the harness hands every gate call "
+               "a freshly built str object and drops it afterwards, so CPython may give consecutive inputs of one length the same "
+               "address (id) - whether it does is up to the allocator and is not controlled, only made likely (streams of equal-length "
+               "texts with nothing allocated in between)",
                "inputs of 50k nesting depth / 100k+ code points are run on the implementation under the monitor only, not inside Coq"]
     ASSUMPTIONS = ["contents are str", "learned/custom regex patterns are valid for re.compile (learn_threat raises re.error otherwise)",
                    "generated custom regexes are not anchored with ^ $ \\A \\Z and do not look behind / beyond their own match: for "
@@ -804,6 +879,10 @@ class C10(Check):
                    "U+212A for k is a case change (lower() unchanged: must stay blocked); a mark inside the occurrence, a fullwidth / "
                    "ligature / precomposed spelling is a different string no signature matches: the property does not ask for it to "
                    "be blocked, and the gates must report exactly the signatures that match what was received",
+                   "a handler that raises: the property's 'an input it has blocked before' is read as a DECISION with allowed=False "
+                   "in the audit trail, whether filter() returned it or the user's on_threat handler raised on it (the caller then "
+                   "never saw a result saying 'allowed'); the exception of a user callback is the callback's, not a gate that raises "
+                   "on an input ('no input string makes either gate raise' is about the gates' own code)",
                    "innate: a validator that returns (False, None) or (False, '') is not counted by check() (`if not valid and error`); "
                    "the three shipped validators always give a message (asserted on every call)"]
 
@@ -1183,10 +1262,13 @@ class C10(Check):
         if plain:
             return {"builtin": list(range(nb)), "custom": [], "threshold": thr if thr is not None else 2,
                     "rate": None, "adaptive": True}
-        return {"builtin": list(range(nb)) if rng.random() < 0.6 else sorted(rng.sample(range(nb), rng.randint(0, nb))),
-                "custom": [self._sigdesc(rng, 100 + rng.randint(1, 40)) for _ in range(rng.choice([0, 0, 1]))],
-                "threshold": rng.choice([0, 1, 2, 2, 3]) if thr is None else thr,
-                "rate": rng.choice([None, None, None, 2, 4]), "adaptive": rng.random() < 0.85}
+        m = {"builtin": list(range(nb)) if rng.random() < 0.6 else sorted(rng.sample(range(nb), rng.randint(0, nb))),
+             "custom": [self._sigdesc(rng, 100 + rng.randint(1, 40)) for _ in range(rng.choice([0, 0, 1]))],
+             "threshold": rng.choice([0, 1, 2, 2, 3]) if thr is None else thr,
+             "rate": rng.choice([None, None, None, 2, 4]), "adaptive": rng.random() < 0.85}
+        if rng.random() < 0.15:      # this member's on_threat handler raises (the model is not told: the decision, read
+            m["handler"] = rng.choice(HANDLER_MODES)      # from the audit trail, must be what it is without a handler)
+        return m
 
     def _alias_sys(self, rng, variant, pat, rx):
         """donor learns, recipient imports the exported objects, then the DONOR changes; the recipient is judged
@@ -1593,6 +1675,144 @@ class C10(Check):
             other += [self._decor_case(rng, "inn", gi, hi, "other"), self._decor_case(rng, "mem", gm, hm, "other")]
         return keep, other
 
+    # -- round 7: callbacks that RAISE; inputs that are short-lived objects ------------------
+    HANDLER_RELAX = ["thr", "forget", "both", "import-weaker", "set-threshold"]
+    HANDLER_PATS = [("secret", False), ("Drop Table", False), (r"rm\s+-rf", True), (r"pass\w+", True), (r"\bsudo\b", True),
+                    ("zq-marker", False)]
+
+    def _handler_mem(self, rng, mode, relax, door):
+        """a scan block while the on_threat handler RAISES `mode` (the caller handles the exception and goes on), other
+        traffic, the rules relaxed (handler repaired or still down), then the byte-identical input again"""
+        shipped = self._shipped()[0]
+        nb = len(shipped)
+        ops = []
+        case = {"kind": "mem", "scenario": f"handler:{door}:{relax}", "builtin": list(range(nb)), "custom": [],
+                "rate": None, "adaptive": True, "t0": T0_TICKS, "ops": ops}
+        if door == "ctor":
+            case["handler"] = mode
+        weak = [s for s in shipped if "pattern" in s and s["level"] < 3]
+        if relax in ("thr", "set-threshold") and weak and rng.random() < 0.5:
+            # a built-in signature below CRITICAL, blocking only because the threshold is strict
+            g = rng.choice(weak)
+            pat, rx, lvl = g["pattern"], g["is_regex"], g["level"]
+            case["threshold"] = rng.randint(1, lvl) if lvl >= 1 else 0
+            learn = None
+        else:
+            pat, rx = rng.choice(self.HANDLER_PATS)
+            lvl = rng.choice([1, 2, 2])
+            case["threshold"] = rng.randint(1, lvl)
+            learn = {"id": 150, "pattern": pat, "regex": rx, "level": lvl}
+        core = rx_instance(pat, rng) if rx else pat
+        x = embed(flip_case(core, rng, 0.3), rng)[:MAX_COQ_LEN]
+        if door != "ctor":
+            if door == "late":          # a returning handler first, replaced by the failing one on the live membrane
+                case["handler"] = "record"
+            ops.append(["set", "on_threat", mode])
+        if learn is not None:
+            ops.append(["learn", learn])
+        ops.append(["filter", x])                       # blocked by the scan; the handler raises out of filter()
+        burst = None
+        if not rx and learn is not None and rng.random() < 0.5:      # a small campaign, every block raising as well
+            burst = ["burst", "", " " + flip_case(pat, rng, 0.3), rng.randint(1, 50), rng.randint(2, 6)]
+            ops.append(burst)
+        if rng.random() < 0.5:
+            ops.append(["filter", benign(rng, 3)])
+        if rng.random() < 0.6:
+            ops.append(["set", "on_threat", rng.choice([None, "record"])])      # the sink is repaired / removed
+        elif rng.random() < 0.5:
+            ops.append(["set", "on_threat", rng.choice(HANDLER_MODES)])         # another failure mode
+        if relax in ("thr", "both"):
+            ops.append(["thr", 3])
+        if relax == "set-threshold":
+            ops.append(["set", "threshold", 3])
+        if learn is not None:
+            if relax in ("forget", "both"):
+                ops.append(["forget", pat])
+            if relax == "import-weaker":
+                ops.append(["import", [{**learn, "id": 151, "level": 0}]])
+        elif relax not in ("thr", "set-threshold", "both"):
+            ops.append(["thr", 3])
+        ops.append(["filter", x])                       # the same content again
+        if burst is not None:
+            ops.append(["filter", burst_content(burst, 0)])
+        ops.append(["filter", benign(rng, 2) + " " + core])       # a fresh occurrence: judged by the relaxed rules
+        ops.append(["filter", x])
+        return case
+
+    def _handler_inn(self, rng, mode, door):
+        """on_inflammation raising: checks that inflame (the handler raises out of check()), benign checks during the
+        cool-down (LOW: raises again), after it, the handler removed, patterns added meanwhile"""
+        shipped = self._shipped()[1]
+        nb = len(shipped)
+        ops = []
+        case = {"kind": "inn", "scenario": f"handler:{door}", "builtin": list(range(nb)),
+                "custom": [{"id": 160, "pattern": "tea", "regex": False, "level": 1}], "validators": rng.choice([[], [["char", False, False]]]),
+                "threshold": 3, "decay": 15, "t0": 0, "ops": ops}
+        if door == "ctor":
+            case["handler"] = mode
+        else:
+            ops.append(["check", "hello there"])
+            ops.append(["set", "on_inflammation", mode])
+        pool = [s for s in shipped if "pattern" in s]
+        atk = embed(self._instance(rng.choice(pool), rng), rng)[:MAX_COQ_LEN]
+        ops += [["check", benign(rng, 2)], ["check", atk], ["check", benign(rng, 2)], ["check", "tea time"],
+                ["check", "bad \x01 byte"], ["tick", rng.choice([899, 901])], ["check", benign(rng, 3)]]
+        if rng.random() < 0.5:
+            ops.append(["addpat", {"id": 161, "pattern": "zq-marker", "regex": False, "level": 5}])
+            ops.append(["check", "a zq-MARKER b"])
+        ops.append(["set", "on_inflammation", rng.choice([None, "record", rng.choice(HANDLER_MODES)])])
+        ops += [["check", atk], ["reset"], ["check", atk], ["check", benign(rng, 2)]]
+        return case
+
+    STREAM_WORDS = ["the", "weather", "report", "number", "is", "fine", "today", "please", "summarize", "thanks", "ok",
+                    "calm", "and", "for", "a", "list", "of", "items"]
+    STREAM_VIAS = ["self", "sib", "thread", "mixed"]
+
+    def _stream_inn(self, rng, length, via_mode, pairs=6):
+        """inputs that are SHORT-LIVED OBJECTS of one length: a benign text is built, checked (by this gate, by a sibling
+        gate, or by a sibling on a worker thread) and dropped, then a signature-carrying text of the same length is built
+        afresh and checked - substring and regex signatures, built-in and custom"""
+        shipped = self._shipped()[1]
+        nb = len(shipped)
+        custom = [{"id": 170, "pattern": rng.choice(["exfiltrate the vault", "Drop Table", "secret"]), "regex": False,
+                   "level": rng.choice([3, 4, 5])},
+                  {"id": 171, "pattern": rng.choice([r"rm\s+-rf", r"pass\w+"]), "regex": True, "level": 4}]
+        subs = [s for s in shipped if "pattern" in s and not s["is_regex"]] + custom[:1]
+        rxs = [s for s in shipped if "pattern" in s and s["is_regex"]] + custom[1:]
+        ops = []
+        case = {"kind": "inn", "scenario": f"stream:{via_mode}", "builtin": list(range(nb)), "custom": custom,
+                "validators": [], "threshold": 3, "decay": rng.choice([15, 0]), "t0": 0, "ops": ops}
+        items = []
+        for j in range(pairs):
+            b = " ".join(rng.choice(self.STREAM_WORDS) for _ in range(rng.randint(2, 5))) + f" {rng.randint(0, 999)}"
+            via = rng.choice(["self", "sib", "thread"]) if via_mode == "mixed" else via_mode
+            items.append([via, pad_to(b, length, rng)])
+            s = rng.choice(subs if rng.random() < 0.7 else rxs)
+            core = flip_case(self._instance(s, rng), rng, 0.3)
+            items.append(["self", pad_to(core, length, rng)[:MAX_COQ_LEN]])
+            if rng.random() < 0.2:      # the same attack once more, now right after itself
+                items.append(["self", items[-1][1]])
+        cut = rng.randint(2, len(items) - 1)
+        ops.append(["stream", items[:cut]])
+        ops.append(rng.choice([["reset"], ["tick", 901], ["check", "hello"]]))
+        ops.append(["stream", items[cut:]])
+        return case
+
+    def _round7_family(self, rng, full):
+        out = []
+        for k, mode in enumerate(HANDLER_MODES):
+            doors = ["ctor", "live", "late"]
+            for door in (doors if full else [doors[(k + self.seed) % 3]]):
+                for relax in (self.HANDLER_RELAX if full else [self.HANDLER_RELAX[(k + self.seed) % 5]]):
+                    out.append(self._handler_mem(rng, mode, relax, door))
+        for k, mode in enumerate(HANDLER_MODES if full else HANDLER_MODES[self.seed % 3::3]):
+            out.append(self._handler_inn(rng, mode, ["ctor", "live"][k % 2]))
+        lengths = [24, 40, 64, 100, 150, 200]
+        for k, via in enumerate(self.STREAM_VIAS):
+            for length in (lengths if full else [lengths[(k + self.seed) % 6], lengths[(k + 3 + self.seed) % 6]]):
+                out.append(self._stream_inn(rng, length, via))
+        return out
+
     def _alphabet_cases(self):
         """the classification itself, compared inside Coq: \\w \\s \\d and the fold on every non-ASCII character of the
         alphabet (and a sample of ASCII)"""
@@ -1640,6 +1860,8 @@ class C10(Check):
                 front.append(self._live_mem(drng, variant))
             front.append(self._live_inn(drng))
         front += later + self._alphabet_cases()
+        # round 7: raising callbacks, streams of short-lived equal-length inputs
+        front += self._round7_family(_random.Random(f"C10:round7:{self.seed}"), full=self.tier != "quick")
         out = front + out
         # host patterns (regexes outside the AST) entering through every door of both gates, among the built-in signatures
         hrng = _random.Random(f"C10:host-family:{self.seed}")
@@ -1750,8 +1972,12 @@ class C10(Check):
                     ops.append(rng.choice([["set", "rate_limit", rng.choice([None, 0, 1, 2, 3, 5])],
                                            ["set", "enable_adaptive", rng.random() < 0.5],
                                            ["set", "threshold", rng.choice([0, 1, 2, 3])]]))
-                else:
+                elif r < 0.975:
                     ops.append(tick())
+                else:                       # the threat handler replaced on the live membrane (may be one that raises)
+                    ops.append(["set", "on_threat", rng.choice([None, "record"] + HANDLER_MODES)])
+        if rng.random() < 0.08:             # a handler that raises, given to the constructor
+            case["handler"] = rng.choice(HANDLER_MODES)
         return case
 
     def _gen_inn(self, rng):
@@ -1815,8 +2041,12 @@ class C10(Check):
                                        ["sib", ["addval", ["len", 0, 0]]]]))
             elif r < 0.90:
                 ops.append(["set", "severity_threshold", rng.choice([0, 1, 2, 3, 3, 4, 5, 6])])
+            elif r < 0.92:
+                ops.append(["set", "on_inflammation", rng.choice([None, "record"] + HANDLER_MODES)])
             else:
                 ops.append(["tick", rng.choice([0, 1, 59, 60, 61, 899, 900, 901, 3600])])
+        if rng.random() < 0.06:
+            case["handler"] = rng.choice(HANDLER_MODES)
         return case
 
     def _batch_contents(self, rng, s, n):
@@ -1848,7 +2078,12 @@ class C10(Check):
         for which, sigs in ((False, mem), (True, inn)):
             for i, s in enumerate(sigs):
                 if "pattern" in s:
-                    out.append({"kind": "shipped", "innate": which, "idx": i, "contents": self._batch_contents(rng, s, 10)})
+                    cs = self._batch_contents(rng, s, 10)
+                    n_ = rng.choice([40, 64, 100, 150])      # + texts of ONE length, benign and signature-carrying in turn
+                    for _j in range(2):
+                        cs.append(pad_to(" ".join(rng.choice(self.STREAM_WORDS) for _ in range(3)), n_, rng))
+                        cs.append(pad_to(flip_case(self._instance(s, rng), rng, 0.3), n_, rng)[:MAX_COQ_LEN])
+                    out.append({"kind": "shipped", "innate": which, "idx": i, "contents": cs})
         for k in range(max(0, n - len(out))):
             r = rng.random()
             if r < 0.08:
@@ -1886,8 +2121,17 @@ class C10(Check):
                     out.append(self._gen_sys(rng))
             elif r < 0.5:
                 out.append(self._gen_mem(rng))
-            elif r < 0.83:
+            elif r < 0.79:
                 out.append(self._gen_inn(rng))
+            elif r < 0.81:
+                if rng.random() < 0.75:
+                    out.append(self._handler_mem(rng, rng.choice(HANDLER_MODES), rng.choice(self.HANDLER_RELAX),
+                                                 rng.choice(["ctor", "live", "late"])))
+                else:
+                    out.append(self._handler_inn(rng, rng.choice(HANDLER_MODES), rng.choice(["ctor", "live"])))
+            elif r < 0.83:
+                out.append(self._stream_inn(rng, rng.choice([16, 24, 33, 40, 64, 77, 100, 130, 150, 200]),
+                                            rng.choice(self.STREAM_VIAS), pairs=rng.randint(2, 8)))
             elif r < 0.90:
                 which = rng.random() < 0.5
                 sigs = inn if which else mem
@@ -2012,7 +2256,7 @@ class C10(Check):
         res, raised = [], None
         for x in case["contents"]:
             try:
-                res.append(int(bool(obj.matches(x))))
+                res.append(int(bool(obj.matches(fresh(x)))))
             except Exception as e:          # noqa
                 res.append(2)
                 raised = f"{type(e).__name__}: {e}"
@@ -2035,11 +2279,29 @@ class C10(Check):
             fired.append(res)
             box["m"].get_statistics()
             box["m"].get_audit_log()
+        thrown = []            # exception objects raised by a raising handler (identity tells them from the gate's own)
+
+        def mk_handler(mode):
+            """None -> no handler; 'record' -> the benign recording one; an exception class name -> a handler that
+            raises a new instance of that class every time it is called (an alert sink that is down)"""
+            if mode is None:
+                return None
+            if mode == "record":
+                return on_threat
+            exc = HANDLER_EXC[mode]
+
+            def raising(res):
+                fired.append(res)
+                e = exc(f"alert sink unreachable ({mode})")
+                thrown.append(e)
+                raise e
+            return raising
         try:
             customs = [self._mk_tsig(M, d) for d in case["custom"]]
             m = M.Membrane(signatures=customs, threshold=M.ThreatLevel(case["threshold"]),
                            enable_adaptive=case["adaptive"], rate_limit=case["rate"],
-                           on_threat=on_threat if case.get("cb") else None, silent=not loud)
+                           on_threat=(mk_handler(case["handler"]) if case.get("handler") else
+                                      on_threat if case.get("cb") else None), silent=not loud)
             box["m"] = m
             if case["builtin"] != list(range(len(B))):
                 m.signatures = [B[i] for i in case["builtin"]] + customs
@@ -2067,12 +2329,16 @@ class C10(Check):
                     f0 = len(fired)
                     results = []
 
-                    def campaign():
+                    def campaign():       # inputs are built, submitted and dropped one by one: none is kept alive
                         for k in range(count):
-                            x = burst_content(op, k)
                             n0 = len(limited_log)
-                            r = m.filter(Signal(content=x))
-                            results.append((x, r, limited_log[n0] if len(limited_log) > n0 else None))
+                            try:
+                                r = m.filter(Signal(content=burst_content(op, k)))
+                            except BaseException as e:      # noqa
+                                if not (thrown and e is thrown[-1]):
+                                    raise
+                                r = m._audit_log[-1]        # the caller handles the handler's exception and goes on
+                            results.append((r, limited_log[n0] if len(limited_log) > n0 else None))
                     try:
                         common.call_with_watchdog(campaign, 30.0 + count / 200.0)
                     except common.Hang:
@@ -2086,38 +2352,58 @@ class C10(Check):
                     stats = m.get_statistics()
                     after = m.get_audit_log()
                     nb = len(before)
-                    items = [{"content": x, "allowed": bool(r.allowed), "level": r.threat_level.value,
+                    items = [{"content": burst_content(op, k), "allowed": bool(r.allowed), "level": r.threat_level.value,
                               "ids": self._ids(r.matched_signatures, B), "limited": lim, "t": clock.ticks}
-                             for (x, r, lim) in results]
+                             for k, (r, lim) in enumerate(results)]
                     st.update(items=items, cb=len(fired) - f0,
                               audit_ok=(len(after) == nb + count and all(a is b for a, b in zip(before, after))
-                                        and all(after[nb + k] is results[k][1] for k in range(count))),
-                              audit_hash_ok=all(r.audit_hash == sha16(x) for (x, r, _) in results))
+                                        and all(after[nb + k] is results[k][0] for k in range(count))),
+                              audit_hash_ok=all(r.audit_hash == sha16(burst_content(op, k))
+                                                for k, (r, _) in enumerate(results)))
                     obs.append([-8, count, len(after), stats["total_filtered"], stats["total_blocked"],
                                 stats["learned_patterns"], stats["blocked_hashes"]])
                     obs.append(rle_flat([[int(it["allowed"]), it["level"], len(it["ids"])] for it in items]))
                 elif kind == "filter":
                     n0 = len(limited_log)
                     f0 = len(fired)
+                    handled = None
                     try:
-                        r = common.call_with_watchdog(lambda: m.filter(Signal(content=op[1])), 10.0)
+                        r = common.call_with_watchdog(lambda: m.filter(Signal(content=fresh(op[1]))), 10.0)
                     except common.Hang:
                         raise
-                    except Exception as e:      # noqa
-                        st["raised"] = f"{type(e).__name__}: {e}"
-                        steps.append(st)
-                        obs.append([-3])
-                        break
-                    ids = self._ids(r.matched_signatures, B)
+                    except BaseException as e:      # noqa
+                        if thrown and e is thrown[-1] and len(fired) > f0:
+                            handled = type(e).__name__      # the handler's own exception: the caller handles it
+                        elif isinstance(e, Exception):
+                            st["raised"] = f"{type(e).__name__}: {e}"
+                            steps.append(st)
+                            obs.append([-3])
+                            break
+                        else:
+                            raise
                     stats = m.get_statistics()
                     after = m.get_audit_log()
+                    if handled is not None:
+                        # no result reached the caller: the decision is the one the audit trail records for this call
+                        if len(after) != len(before) + 1:
+                            st.update(content=op[1], handler_raised=handled, audit_ok=False)
+                            steps.append(st)
+                            obs.append([-3])
+                            break
+                        r = after[-1]
+                    ids = self._ids(r.matched_signatures, B)
                     st.update(content=op[1], allowed=bool(r.allowed), level=r.threat_level.value, ids=ids,
                               limited=(limited_log[n0] if len(limited_log) > n0 else None),
                               audit_ok=(len(after) == len(before) + 1 and all(a is b for a, b in zip(before, after))
                                         and after[-1] is r),
                               audit_hash_ok=(r.audit_hash == sha16(op[1])), cb=len(fired) - f0)
-                    obs.append([int(r.allowed), r.threat_level.value, len(after), stats["total_filtered"],
-                                stats["total_blocked"], stats["learned_patterns"], stats["blocked_hashes"]])
+                    if handled is not None:
+                        st["handler_raised"] = handled
+                        obs.append([-10, r.threat_level.value, len(after), stats["total_filtered"],
+                                    stats["total_blocked"], stats["learned_patterns"], stats["blocked_hashes"]])
+                    else:
+                        obs.append([int(r.allowed), r.threat_level.value, len(after), stats["total_filtered"],
+                                    stats["total_blocked"], stats["learned_patterns"], stats["blocked_hashes"]])
                     obs.append(ids)
                 else:
                     if kind == "learn":
@@ -2141,11 +2427,12 @@ class C10(Check):
                     elif kind == "clear":
                         m.clear_audit_log()
                     elif kind == "set":      # a public configuration attribute assigned on the LIVE membrane
-                        if op[1] not in ("rate_limit", "enable_adaptive", "threshold", "silent"):
+                        if op[1] not in ("rate_limit", "enable_adaptive", "threshold", "silent", "on_threat"):
                             raise ValueError(op[1])
                         if op[1] == "silent" and not loud:
                             raise ValueError("silent toggled in a history whose stdout is not captured")
-                        setattr(m, op[1], M.ThreatLevel(op[2]) if op[1] == "threshold" else op[2])
+                        setattr(m, op[1], M.ThreatLevel(op[2]) if op[1] == "threshold" else
+                                mk_handler(op[2]) if op[1] == "on_threat" else op[2])
                     else:
                         raise ValueError(kind)
                     after = m.get_audit_log()
@@ -2176,18 +2463,25 @@ class C10(Check):
             loud = not case.get("silent", True)
             fired = []         # (member, FilterResult) handed to on_threat callbacks
 
-            def mk_cb(j):      # benign recording callback; reads the accessors of EVERY member of the colony
+            thrown = []
+
+            def mk_cb(j, mode=None):      # benign recording callback; reads the accessors of EVERY member of the colony
                 def on_threat(res):
                     fired.append((j, res))
                     for mm in ms:
                         mm.get_statistics()
                         mm.get_audit_log()
+                    if mode is not None:    # ... and then fails: a member whose alert sink is down
+                        e = HANDLER_EXC[mode](f"alert sink of membrane {j} unreachable ({mode})")
+                        thrown.append(e)
+                        raise e
                 return on_threat
             for j, spec in enumerate(case["members"]):
                 customs = [self._mk_tsig(M, d) for d in spec["custom"]]
                 m = M.Membrane(signatures=customs, threshold=M.ThreatLevel(spec["threshold"]),
                                enable_adaptive=spec["adaptive"], rate_limit=spec["rate"],
-                               on_threat=mk_cb(j) if case.get("cb") else None, silent=not loud)
+                               on_threat=(mk_cb(j, spec["handler"]) if spec.get("handler") else
+                                          mk_cb(j) if case.get("cb") else None), silent=not loud)
                 if spec["builtin"] != list(range(len(B))):
                     m.signatures = [B[i] for i in spec["builtin"]] + customs
                 log = []
@@ -2242,18 +2536,32 @@ class C10(Check):
                 if kind == "filter":
                     n0 = len(logs[k])
                     f0 = len(fired)
+                    handled = None
                     try:
-                        r = common.call_with_watchdog(lambda: m.filter(Signal(content=mop[1])), 10.0)
+                        r = common.call_with_watchdog(lambda: m.filter(Signal(content=fresh(mop[1]))), 10.0)
                     except common.Hang:
                         raise
-                    except Exception as e:      # noqa
-                        st["raised"] = f"{type(e).__name__}: {e}"
-                        steps.append(st)
-                        obs.append([-3])
-                        break
-                    ids = self._ids(r.matched_signatures, B)
+                    except BaseException as e:      # noqa
+                        if thrown and e is thrown[-1] and len(fired) > f0:
+                            handled = type(e).__name__      # this member's handler failed: the caller handles it
+                        elif isinstance(e, Exception):
+                            st["raised"] = f"{type(e).__name__}: {e}"
+                            steps.append(st)
+                            obs.append([-3])
+                            break
+                        else:
+                            raise
                     stats = m.get_statistics()
                     after = m.get_audit_log()
+                    if handled is not None:
+                        st["handler_raised"] = handled
+                        if len(after) != len(before) + 1:
+                            st.update(content=mop[1], audit_ok=False)
+                            steps.append(st)
+                            obs.append([-3])
+                            break
+                        r = after[-1]       # the decision is the one the audit trail records for this call
+                    ids = self._ids(r.matched_signatures, B)
                     st.update(content=mop[1], allowed=bool(r.allowed), level=r.threat_level.value, ids=ids,
                               limited=(logs[k][n0] if len(logs[k]) > n0 else None),
                               audit_ok=(len(after) == len(before) + 1 and all(a is b for a, b in zip(before, after))
@@ -2323,9 +2631,25 @@ class C10(Check):
                 fired.append(resp)
                 box["im"].stats()
                 box["im"].get_inflammation_state()
+            thrown = []        # (exception object, level of the response) raised by a raising handler
+
+            def mk_handler(mode):
+                if mode is None:
+                    return None
+                if mode == "record":
+                    return on_inflammation
+                exc = HANDLER_EXC[mode]
+
+                def raising(resp):
+                    fired.append(resp)
+                    e = exc(f"escalation hook unreachable ({mode})")
+                    thrown.append((e, int(resp.level)))
+                    raise e
+                return raising
             im = I.InnateImmunity(patterns=customs, validators=[self._mk_validator(I, v) for v in case["validators"]],
                                   severity_threshold=case["threshold"], inflammation_decay_minutes=case["decay"],
-                                  on_inflammation=on_inflammation if case.get("cb") else None, silent=not loud)
+                                  on_inflammation=(mk_handler(case["handler"]) if case.get("handler") else
+                                                   on_inflammation if case.get("cb") else None), silent=not loud)
             box["im"] = im
             if case["builtin"] != list(range(len(B))):
                 im.patterns = [B[i] for i in case["builtin"]] + customs
@@ -2333,14 +2657,95 @@ class C10(Check):
             # must not reach `im`
             sib = I.InnateImmunity(patterns=customs, validators=list(im.validators), severity_threshold=case["threshold"],
                                    inflammation_decay_minutes=case["decay"], silent=True)
+            def verdicts_of(x):
+                verdicts = []
+                for v, obj in zip(vdescs, im.validators):
+                    shipped = v[0] in ("len", "char", "json")
+                    try:
+                        valid, err = obj.validate(x)
+                        verdicts.append({"shipped": shipped, "valid": bool(valid), "err": bool(err)})
+                        if v[0] == "json":      # the oracle's answer for the model: json.loads itself
+                            pk, pv = json_parse(x)
+                            verdicts[-1]["parse"] = json_shape(pv) if pk == "tree" else None
+                    except Exception as e:      # noqa
+                        verdicts.append({"shipped": shipped, "raises": f"{type(e).__name__}"})
+                return verdicts
+
+            def sib_in_thread(x):
+                t = threading.Thread(target=lambda: sib.check(fresh(x)), daemon=True)
+                t.start()
+                t.join(10.0)
+
             for op in case["ops"]:
                 kind = op[0]
                 st = {"op": kind}
+                if kind == "stream":
+                    # A stream of inputs that are SHORT-LIVED OBJECTS: each text is built at run time, handed to a gate
+                    # (this one, the sibling instance, or the sibling on a worker thread) and dropped before the next one
+                    # is built; nothing but integers is recorded in between.
+                    plan = [(via, x, verdicts_of(x) if via == "self" else None) for via, x in op[1]]
+                    rows = []
+
+                    def run_stream():
+                        y = None
+                        for via, x, _v in plan:
+                            y = fresh(x)
+                            if via == "self":
+                                n_thrown = len(thrown)
+                                try:
+                                    r = im.check(y)
+                                    y = None
+                                    rows.append((r, None, im._check_count, im._block_count,
+                                                 im.inflammation_state.trigger_count, int(im.inflammation_state.level)))
+                                except BaseException as e:      # noqa
+                                    y = None
+                                    if not isinstance(e, Exception) and not (len(thrown) > n_thrown and e is thrown[-1][0]):
+                                        raise
+                                    rows.append((None, e, im._check_count, im._block_count,
+                                                 im.inflammation_state.trigger_count, int(im.inflammation_state.level)))
+                            else:
+                                try:
+                                    if via == "thread":
+                                        y = None
+                                        sib_in_thread(x)
+                                    else:
+                                        sib.check(y)
+                                except Exception:       # noqa - the sibling is not under test
+                                    pass
+                                y = None
+                                rows.append(None)
+                    common.call_with_watchdog(run_stream, 10.0 + len(plan) / 20.0)
+                    items = []
+                    for (via, x, vs), row in zip(plan, rows):
+                        if row is None:
+                            items.append({"op": "sib"})
+                            obs.append([-4])
+                            continue
+                        r, e, nc, nbk, ntr, lvl = row
+                        it = {"op": "check", "content": x, "verdicts": vs}
+                        if e is not None:
+                            own = [t for t in thrown if t[0] is e]
+                            if own:
+                                it["handler_raised"] = type(e).__name__
+                                obs.append([3, own[0][1], nc, nbk, ntr, lvl])
+                            else:
+                                it["raised"] = f"{type(e).__name__}: {e}"[:200]
+                                obs.append([2, nc, nbk, ntr, lvl])
+                        else:
+                            ids = self._ids(r.matched_patterns, B)
+                            it.update(allowed=bool(r.allowed), ids=ids, nerr=len(r.structural_errors),
+                                      level=int(r.inflammation.level), cb=0)
+                            obs.append([int(r.allowed), len(r.structural_errors), int(r.inflammation.level), nc, nbk, ntr, lvl])
+                            obs.append(ids)
+                        items.append(it)
+                    st["items"] = items
+                    steps.append(st)
+                    continue
                 if kind == "sib":
                     sop = op[1]
                     try:
                         if sop[0] == "check":
-                            sib.check(sop[1])
+                            sib.check(fresh(sop[1]))
                         elif sop[0] == "addpat":
                             sib.add_pattern(mk(sop[1]))
                         elif sop[0] == "addval":
@@ -2363,24 +2768,23 @@ class C10(Check):
                 if kind == "check":
                     x = op[1]
                     f0 = len(fired)
-                    verdicts = []
-                    for v, obj in zip(vdescs, im.validators):
-                        shipped = v[0] in ("len", "char", "json")
-                        try:
-                            valid, err = obj.validate(x)
-                            verdicts.append({"shipped": shipped, "valid": bool(valid), "err": bool(err)})
-                            if v[0] == "json":      # the oracle's answer for the model: json.loads itself
-                                pk, pv = json_parse(x)
-                                verdicts[-1]["parse"] = json_shape(pv) if pk == "tree" else None
-                        except Exception as e:      # noqa
-                            verdicts.append({"shipped": shipped, "raises": f"{type(e).__name__}"})
-                    st.update(content=x, verdicts=verdicts)
+                    n_thrown = len(thrown)
+                    st.update(content=x, verdicts=verdicts_of(x))
                     try:
-                        r = common.call_with_watchdog(lambda: im.check(x), 10.0)
+                        r = common.call_with_watchdog(lambda: im.check(fresh(x)), 10.0)
                     except common.Hang:
                         raise
-                    except Exception as e:          # noqa
+                    except BaseException as e:      # noqa
                         s = im.stats()
+                        if len(thrown) > n_thrown and e is thrown[-1][0]:
+                            # the on_inflammation handler's own exception: the caller handles it and goes on
+                            st["handler_raised"] = type(e).__name__
+                            obs.append([3, thrown[-1][1], s["check_count"], s["block_count"], s["inflammation_triggers"],
+                                        int(im.inflammation_state.level)])
+                            steps.append(st)
+                            continue
+                        if not isinstance(e, Exception):
+                            raise
                         st["raised"] = f"{type(e).__name__}: {e}"[:200]
                         obs.append([2, s["check_count"], s["block_count"], s["inflammation_triggers"],
                                     int(im.inflammation_state.level)])
@@ -2404,6 +2808,11 @@ class C10(Check):
                         im.reset_inflammation()
                     elif kind == "tick":
                         VDatetime.secs += op[1]
+                    elif kind == "set" and op[1] == "on_inflammation":     # the handler replaced on the live object
+                        im.on_inflammation = mk_handler(op[2])
+                        obs.append([-11, int(op[2] in HANDLER_EXC)])
+                        steps.append(st)
+                        continue
                     elif kind == "set":      # im.severity_threshold assigned on the live object
                         if op[1] != "severity_threshold":
                             raise ValueError(op[1])
@@ -2433,7 +2842,12 @@ class C10(Check):
         elif k == "sys":
             xs = [op[2][1] for op in case["ops"] if op[0] == "m" and op[2][0] == "filter"]
         elif k == "inn":
-            xs = [op[1] for op in case["ops"] if op[0] == "check"]
+            xs = []
+            for op in case["ops"]:
+                if op[0] == "check":
+                    xs.append(op[1])
+                elif op[0] == "stream":
+                    xs += [x for via, x in op[1] if via == "self"]
         else:
             xs = []
         return list(dict.fromkeys(xs))
@@ -2517,13 +2931,18 @@ class C10(Check):
                         ops.append(f"CSetAdaptive {cbool(op[2])}")
                     elif op[1] == "threshold":
                         ops.append(f"COp (OSetThreshold {cz(op[2])})")
+                    elif op[1] == "on_threat":    # the model is told only whether the handler raises
+                        if not (op[2] in (None, "record") or op[2] in HANDLER_EXC):
+                            raise ValueError(op[2])
+                        ops.append(f"CSetHandler {cbool(op[2] in HANDLER_EXC)}")
                     elif op[1] != "silent":       # console output: not shown to the model
                         raise ValueError(op[1])
                 elif o != "peek":         # read-only accessor: not shown to the model
                     raise ValueError(o)
-            return ("(CMem (mkMCase %s %s %s %s %s %s %s))" % (
+            return ("(CMem (mkMCase %s %s %s %s %s %s %s %s))" % (
                 clist([cnat(i) for i in case["builtin"]]), clist([sig_coq(d) for d in case["custom"]]),
-                cz(case["threshold"]), copt(case["rate"]), cbool(case["adaptive"]), cz(case["t0"]), clist(ops)))
+                cz(case["threshold"]), copt(case["rate"]), cbool(case["adaptive"]), cz(case["t0"]),
+                cbool(case.get("handler") in HANDLER_EXC), clist(ops)))
         # innate: verdicts come from the recorded run
         obs, trace = self._last_inn(case)
         vd = lambda v: (f"VLen {cz(v[1])} {cz(v[2])}" if v[0] == "len" else
@@ -2534,19 +2953,30 @@ class C10(Check):
             return "JAtom" if sh == 0 else f"({'JArr' if sh[0] == 'a' else 'JObj'} {clist([tree(c) for c in sh[1]])})"
         ops = []
         steps = iter(trace["steps"])
+
+        def check_coq(x, st):
+            ans = []
+            for v in (st or {}).get("verdicts") or []:
+                if "raises" in v:
+                    ans.append("AV VRaises")
+                elif "parse" in v:      # JSONValidator: what json.loads did with the content
+                    ans.append("AP PFails" if v["parse"] is None else f"AP (PTree {tree(v['parse'])})")
+                else:
+                    ans.append(f"AV (VRet {cbool(v['valid'])} {cbool(v['err'])})")
+            return f"RI (ICheck {cstr(x)}) {clist(ans)}"
         for op in case["ops"]:
             st = next(steps, None)
             o = op[0]
             if o == "check":
-                ans = []
-                for v in (st or {}).get("verdicts", []):
-                    if "raises" in v:
-                        ans.append("AV VRaises")
-                    elif "parse" in v:      # JSONValidator: what json.loads did with the content
-                        ans.append("AP PFails" if v["parse"] is None else f"AP (PTree {tree(v['parse'])})")
-                    else:
-                        ans.append(f"AV (VRet {cbool(v['valid'])} {cbool(v['err'])})")
-                ops.append(f"RI (ICheck {cstr(op[1])}) {clist(ans)}")
+                ops.append(check_coq(op[1], st))
+            elif o == "stream":           # a stream is the sequence of its checks (sibling items: no effect here)
+                its = (st or {}).get("items") or []
+                for j, (via, x) in enumerate(op[1]):
+                    ops.append(check_coq(x, its[j] if j < len(its) else None) if via == "self" else "RSibling")
+            elif o == "set" and op[1] == "on_inflammation":
+                if not (op[2] in (None, "record") or op[2] in HANDLER_EXC):
+                    raise ValueError(op[2])
+                ops.append(f"RSetHandler {cbool(op[2] in HANDLER_EXC)}")
             elif o == "sib":
                 ops.append("RSibling")
             elif o == "addval":
@@ -2561,10 +2991,11 @@ class C10(Check):
                 ops.append(f"RI (ISetThreshold {cz(op[2])}) []")
             elif o != "peek":             # read-only accessor: not shown to the model
                 raise ValueError(o)
-        return ("(CInn (mkICase %s %s %s %s %s %s %s))" % (
+        return ("(CInn (mkICase %s %s %s %s %s %s %s %s))" % (
             clist([cnat(i) for i in case["builtin"]]), clist([sig_coq(d) for d in case["custom"]]),
             clist([vd(v) for v in self._effective_validators(case["validators"])]),
-            cz(case["threshold"]), cz(case["decay"]), cz(case["t0"]), clist(ops)))
+            cz(case["threshold"]), cz(case["decay"]), cz(case["t0"]), cbool(case.get("handler") in HANDLER_EXC),
+            clist(ops)))
 
     def _last_inn(self, case):
         key = id(case)
@@ -2604,7 +3035,9 @@ class C10(Check):
             if "raised" in st:
                 return Violation("C10/raises", f"Membrane.filter raised {st['raised']}")
             if not st.get("audit_ok", True):
-                return Violation("C10/audit", f"audit trail not appended-to exactly once by {st['op']} (or rewritten)")
+                return Violation("C10/audit", f"audit trail not appended-to exactly once by {st['op']} (or rewritten)" +
+                                 (f": the on_threat handler raised {st['handler_raised']} out of filter({st['content']!r}) "
+                                  f"and the decision is not in the audit trail" if "handler_raised" in st else ""))
             if st["op"] in ("filter", "burst") and not st["audit_hash_ok"]:
                 return Violation("C10/audit", "audit_hash is not the content hash")
         return self._monitor_mem_ordered(case, trace)
@@ -2674,6 +3107,9 @@ class C10(Check):
         epoch = 0
         blocked = []        # (content, epoch) blocked by a signature at/above the threshold
         vdescs = list(self._effective_validators(case["validators"]))     # the configured validators, in order
+
+        def judge(it):      # reads the CURRENT patterns / threshold / epoch
+            return self._judge_check(it, pats, thr, epoch, blocked, vdescs)
         for op, st in zip(case["ops"], trace["steps"]):
             o = op[0]
             if o == "addpat":
@@ -2682,11 +3118,27 @@ class C10(Check):
                 epoch += 1
             if o == "addval":
                 vdescs.append(op[1])
-            if o == "set":              # severity_threshold assigned on the live object
+            if o == "set" and op[1] == "severity_threshold":     # assigned on the live object
                 thr = op[2]
                 epoch += 1
+            if o == "stream":           # every check of the stream is judged, one by one, like any other check
+                for it in st["items"]:
+                    if it["op"] == "check":
+                        v = judge(it)
+                        if v is not None:
+                            return v
+                continue
             if o != "check":
                 continue
+            v = judge(st)
+            if v is not None:
+                return v
+        return None
+
+    @staticmethod
+    def _judge_check(st, pats, thr, epoch, blocked, vdescs):
+        """one check() of an innate history against the property -> None | Violation"""
+        if True:
             x = st["content"]
             vs = st["verdicts"]
             for v in vs:
@@ -2695,9 +3147,11 @@ class C10(Check):
                 if v["shipped"] and not v.get("valid", True) and not v["err"]:
                     return Violation("C10/validator-silent-reject", f"a shipped validator rejected {x[:60]!r} without a message")
             stub_raises = any("raises" in v and not v["shipped"] for v in vs)
+            if "handler_raised" in st:      # the user's on_inflammation raised: its exception, not the gate's; nothing was admitted
+                return None
             if "raised" in st:
                 if stub_raises:
-                    continue
+                    return None
                 return Violation("C10/raises", f"InnateImmunity.check raised {st['raised']} on {x[:60]!r} (len {len(x)})")
             hits = [(i, sev) for (i, p, rx, sev) in pats if spec_matches(p, rx, x)]
             texts = {i: ("regex " if rx else "substring ") + repr(p) for (i, p, rx, _s) in pats}
@@ -2740,6 +3194,10 @@ class C10(Check):
                 return True
             if st["op"] == "burst" and any(not it["allowed"] for it in st.get("items", [])):
                 return True
+            if st["op"] == "stream" and any(it.get("ids") or it.get("handler_raised") for it in st.get("items", [])):
+                return True
+            if st.get("handler_raised"):
+                return True
         return False
 
     @staticmethod
@@ -2780,6 +3238,11 @@ class C10(Check):
                 ks.append(("innate-" if k == "inn" else "membrane-") + case["scenario"])
         if trace.get("printed"):
             ks.append("printed-to-stdout")
+        if str(case.get("scenario", "")).startswith("handler:") and k == "mem":
+            fs = [st for st in trace.get("steps", []) if st["op"] == "filter" and "allowed" in st]
+            victim = [st for st in fs if st["content"] == fs[0]["content"]] if fs else []
+            if len(victim) >= 2 and victim[0].get("handler_raised"):
+                ks.append("handler:block-raised-then-relaxed:" + ("still-refused" if not victim[-1]["allowed"] else "ADMITTED"))
         if case.get("cb"):
             ks.append("callbacks-supplied")
             if any(st.get("cb") for st in trace.get("steps", [])):
@@ -2795,6 +3258,8 @@ class C10(Check):
                           if len(fs) >= 3 else case["scenario"])
             for st in trace.get("steps", []):
                 ks.append("sys-op=" + st["op"])
+                if st.get("handler_raised"):
+                    ks.append("sys-filter:handler-raised")
                 if st["op"] == "filter" and "allowed" in st:
                     ks.append("sys-filter:" + ("rate-limited" if st["limited"] else
                                                "replay-blocked" if st["level"] == 3 and not st["ids"] and not st["allowed"]
@@ -2822,7 +3287,7 @@ class C10(Check):
                     if it.get("limited"):
                         ks.append(case["scenario"] + ":rate-limited")
                         break
-        elif case.get("scenario") and not case["scenario"].startswith(("keyclash:", "host:")):
+        elif case.get("scenario") and not case["scenario"].startswith(("keyclash:", "host:", "handler:", "stream:")):
             key = "filter" if k == "mem" else "check"
             fs = [st for st in trace.get("steps", []) if st["op"] == key and st.get("content") == case["ops"][0][1]
                   and "allowed" in st]
@@ -2847,8 +3312,21 @@ class C10(Check):
                 else:
                     ks.append("filter:scanned-" + ("allowed" if st["allowed"] else "blocked"))
                     ks.append(f"level={st['level']}")
+            if st.get("handler_raised"):
+                ks.append(f"{st['op']}:handler-raised")
+                ks.append("handler-raised:" + ("Exception" if issubclass(HANDLER_EXC[st["handler_raised"]], Exception)
+                                               else "BaseException") + ":" + st["handler_raised"])
+            if st["op"] == "stream":
+                its = [it for it in st.get("items", []) if it["op"] == "check"]
+                ks.append(f"stream-checks:{len(its)}")
+                for a, b in zip(its, its[1:]):
+                    if "allowed" in a and "allowed" in b and len(a["content"]) == len(b["content"]):
+                        ks.append("stream:equal-length-" + ("benign" if a["allowed"] and not a["ids"] else "hit") + "-then-" +
+                                  ("benign" if b["allowed"] and not b["ids"] else "hit"))
             if st["op"] == "check":
-                if "raised" in st:
+                if "handler_raised" in st:
+                    pass
+                elif "raised" in st:
                     ks.append("check:raised")
                 else:
                     ks.append("check:" + ("allowed" if st["allowed"] else "blocked"))
@@ -3017,6 +3495,15 @@ class C10(Check):
                 return {**case, "contents": cs}
             return case
         ops = common.shrink_list(case["ops"], lambda os: len(os) > 0 and pred({**case, "ops": os}))
+        for j, op in enumerate(ops):        # a stream: fewer items (whether a failure shows may depend on the allocator)
+            if op[0] == "stream" and len(op[1]) > 1:
+                def with_items(items, j=j):
+                    return {**case, "ops": ops[:j] + [["stream", items]] + ops[j + 1:]}
+                try:
+                    items = common.shrink_list(op[1], lambda its: len(its) > 0 and pred(with_items(its)))
+                except Exception:       # noqa
+                    items = op[1]
+                ops = ops[:j] + [["stream", items]] + ops[j + 1:]
         return {**case, "ops": ops}
 
 
